@@ -616,6 +616,9 @@ func (m *Machine) evalValue(fr *frame, v ssa.Value) Value {
 				return se
 			}
 		}
+		if sb, isSB := base.(*SymBytes); isSB {
+			base = m.matBytes(sb)
+		}
 		i := m.toInt(m.get(fr, x.Index))
 		switch b := base.(type) {
 		case Slice:
@@ -849,6 +852,8 @@ func (m *Machine) callBuiltin(b *ssa.Builtin, args []Value, site *ssa.Call) Valu
 			return int64(len(x.buf))
 		case *SymBytes:
 			return m.C.Zext(x.S.Len, 32)
+		case *JSONBlob:
+			return jsonLen(x)
 		case *Value:
 			return int64(len((*x).(Array)))
 		}
@@ -1317,4 +1322,68 @@ func symBytesOnlyForModels(x *ssa.Convert) bool {
 		}
 	}
 	return true
+}
+
+// matBytes: the bytes of a symbolic string as a real slice (decided length, symbolic
+// elements), built once per SymBytes value.
+func (m *Machine) matBytes(sb *SymBytes) Slice {
+	if sb.mat != nil {
+		return sb.mat
+	}
+	n := m.decideLen(sb.S)
+	sl := make(Slice, n)
+	for i := 0; i < n; i++ {
+		sl[i] = m.normScalar(sb.S.Ch[i])
+	}
+	sb.mat = sl
+	return sl
+}
+
+// jsonLen: the "length" of a marshalled-JSON snapshot: a function of the snapshot's
+// structure (equal content gives equal length).
+func jsonLen(b *JSONBlob) int64 {
+	n := int64(100)
+	seen := map[interface{}]bool{}
+	var rec func(v Value, d int)
+	rec = func(v Value, d int) {
+		if d > 40 {
+			return
+		}
+		switch x := v.(type) {
+		case *Value:
+			if x == nil || seen[x] {
+				return
+			}
+			seen[x] = true
+			rec(*x, d+1)
+		case Struct:
+			for _, f := range x {
+				rec(f, d+1)
+			}
+		case Slice:
+			n += 2
+			for _, f := range x {
+				rec(f, d+1)
+			}
+		case Array:
+			for _, f := range x {
+				rec(f, d+1)
+			}
+		case *Map:
+			if x != nil {
+				n += 2
+				for i := range x.keys {
+					rec(x.keys[i], d+1)
+					rec(x.vals[i], d+1)
+				}
+			}
+		case string:
+			n += int64(len(x)) + 2
+		case nil:
+		default:
+			n += 3
+		}
+	}
+	rec(b.Snap, 0)
+	return n
 }
